@@ -19,21 +19,21 @@ import (
 
 // Entry is one harness function explored under fixed bounds.
 type Entry struct {
-	Pkg      string           // package directory relative to the repo root
-	Func     string           // harness entry point
-	Shards   int              // lib.VerifShard fan-out (separate executors, run in parallel)
-	Params   map[string]int64 // bounds for the quick tier
-	Thorough map[string]int64 // overrides for the thorough tier
-	TShards  int              // shard count in the thorough tier (0 = same)
-	Solver   string
-	MaxDec   int
-	MaxSteps int
-	Tier     string // "" both, "thorough" only in thorough
-	TimeoutS int
-	NoInit   bool
-	Concurrent bool  // concurrency mode: thread-modular unfolding + partial-order SMT encoding
-	CSolver  string
-	What     string // one line: what is encoded / asserted
+	Pkg        string           // package directory relative to the repo root
+	Func       string           // harness entry point
+	Shards     int              // lib.VerifShard fan-out (separate executors, run in parallel)
+	Params     map[string]int64 // bounds for the quick tier
+	Thorough   map[string]int64 // overrides for the thorough tier
+	TShards    int              // shard count in the thorough tier (0 = same)
+	Solver     string
+	MaxDec     int
+	MaxSteps   int
+	Tier       string // "" both, "thorough" only in thorough
+	TimeoutS   int
+	NoInit     bool
+	Concurrent bool // concurrency mode: thread-modular unfolding + partial-order SMT encoding
+	CSolver    string
+	What       string // one line: what is encoded / asserted
 }
 
 // Check is everything run for one property.
@@ -54,25 +54,25 @@ type Finding struct {
 }
 
 type runResult struct {
-	entry   Entry
-	shard   int
-	mode    string // "", "excl", "only:<name>"
-	params  map[string]int64
-	rep     *engine.Report
-	x       *engine.Exec
-	err     error
-	seconds float64
-	queries int
-	sat     int
-	unsat   int
-	unknown int
-	solverS float64
-	funcs   []string
-	stubs   []string
-	assumes map[string]int
-	samples []map[string]uint64
-	maxdec  int
-	skipped map[string]int
+	entry      Entry
+	shard      int
+	mode       string // "", "excl", "only:<name>"
+	params     map[string]int64
+	rep        *engine.Report
+	x          *engine.Exec
+	err        error
+	seconds    float64
+	queries    int
+	sat        int
+	unsat      int
+	unknown    int
+	solverS    float64
+	funcs      []string
+	stubs      []string
+	assumes    map[string]int
+	samples    []map[string]uint64
+	maxdec     int
+	skipped    map[string]int
 	cmSchedule []string
 }
 
@@ -649,7 +649,7 @@ func TestVerifReplay(t *testing.T) {
 	testFile := filepath.Join(dir, fmt.Sprintf("%s_%s_replay_test.go", id, strings.ReplaceAll(pkg, "/", "_")))
 	os.WriteFile(testFile, []byte(sb.String()), 0o644)
 	repl := map[string]string{
-		filepath.Join(repo, "lib", "zz_verif_rt.go"):           filepath.Join(vdir, "rt", "zz_verif_rt.go"),
+		filepath.Join(repo, "lib", "zz_verif_rt.go"):        filepath.Join(vdir, "rt", "zz_verif_rt.go"),
 		filepath.Join(repo, pkg, "zz_verif_replay_test.go"): testFile,
 	}
 	files, _ := filepath.Glob(filepath.Join(vdir, "harness", pkg, "*.go"))
